@@ -38,6 +38,7 @@ def encPairs (ps : List (Str × Str)) : String :=
 def showCsvErr : CsvErr → String
   | .bareQuote => "bare-quote"
   | .quote => "quote"
+  | .unsupportedSettings => "unsupported-settings"
 
 def showImp : Option ImpErr → String
   | none => "ok"
@@ -100,12 +101,12 @@ def step (_u : Unit) (ws : List String) : Unit × Ans :=
   match ws with
   | ["csvw", rs] =>
     match decRecs rs with
-    | some recs => ((), ans (encStr (writeAll recs)))
+    | some recs => ((), ans (encStr (writeAllW codeWriter recs)))
     | none => bad
   | ["csvr", t] =>
     match decStr t with
     | some text =>
-      let p := parse text
+      let p := parseG codeReader text
       match p.err with
       | none => ((), ans ("ok " ++ encRecs p.recs))
       | some e => ((), ans ("err:" ++ showCsvErr e ++ " " ++ encRecs p.recs))
@@ -113,7 +114,7 @@ def step (_u : Unit) (ws : List String) : Unit × Ans :=
   | ["csvrt", rs] =>
     match decRecs rs with
     | some recs =>
-      let p := parse (writeAll recs)
+      let p := parseG codeReader (writeAllW codeWriter recs)
       let m := match p.err with
         | none => "ok " ++ encRecs p.recs
         | some e => "err:" ++ showCsvErr e ++ " " ++ encRecs p.recs
